@@ -107,7 +107,13 @@ class Sandbox:
         if via == "file":
             self.nfile += 1
             nf = os.path.join(self.dir, "names%d.txt" % self.nfile)
-            open(nf, "w").write("".join(n + "\n" for n in names))
+            # one name per line; blank and whitespace-only lines (also the first line) carry no name
+            lines = []
+            for j, n in enumerate(names):
+                if (self.nfile + j) % 3 == 0:
+                    lines.append("" if j % 2 else "   ")
+                lines.append(n)
+            open(nf, "w").write("".join(x + "\n" for x in lines))
             args += ["-f", nf]
         else:
             args += names
